@@ -19,6 +19,12 @@ fn main() {
         std::process::exit(3);
     }
     drv::install_panic_hook();
+    if args[1] == "miri-smoke" {
+        // oxverif miri-smoke <c08|c13> <shard> <nshards>   (run under `cargo +nightly miri run`)
+        let shard = args.get(3).and_then(|s| s.parse().ok()).unwrap_or(0);
+        let n = args.get(4).and_then(|s| s.parse().ok()).unwrap_or(1);
+        std::process::exit(props::miri::smoke(&args[2], shard, n));
+    }
     util::silence_stdout();
     let seed: u64 = std::env::var("VERIF_SEED").ok().and_then(|s| s.parse::<i64>().ok()).map(|x| x as u64).unwrap_or(0);
     match args[1].as_str() {
